@@ -105,6 +105,7 @@ func (g *Gen) verifyFunction(fn *ssa.Function, c *Contract) (res *VCResult) {
 					nv[n] = e.vars[ps[k].Name()]
 				}
 			}
+			nv["fn"] = Arg{t: Term{g.fnConst(fn), "Int", fn.Type()}}
 			e.vars = nv
 			return e
 		}
